@@ -16,9 +16,11 @@ ModelAgrees(r) ==
 RecOk(r) == IF Mode = "drift" THEN ModelAgrees(r)
             ELSE IF r.k = "doc" THEN DocOk(r) ELSE EscOk(r)
 
-\* detail of a "suffix-changed" verdict: the expected byte at the first position where the query/fragment
-\* read back from the output differs from the source's, and the expected byte after it ("92_61": a
-\* backslash before '=' was lost) - the root cause, whatever the rest of the destination is
+\* detail of a "suffix-changed" verdict, at the first position where the query/fragment read back from the
+\* output (got) differs from the source's (want): "backslash-before-61" when a backslash of the source before
+\* '=' is gone (the escaper did not protect it) or when a backslash appeared before '=' (the unescaper did not
+\* take \= as an escape) - the two faces of one disagreement about what a backslash escapes -, "other-at-<byte>"
+\* otherwise: the root cause, whatever the rest of the destination is
 SuffixDetail(r, v) ==
   LET sp == r.spans[v.k]
       want == PctDecode(SuffixPart(RefUnescape(OldDest(r.src, sp))))
@@ -26,7 +28,15 @@ SuffixDetail(r, v) ==
       diff == {i \in 1..Len(want) : i > Len(got) \/ got[i] # want[i]} IN
   IF diff = {} THEN "longer"
   ELSE LET i == CHOOSE j \in diff : \A j2 \in diff : j <= j2 IN
-       ToString(want[i]) \o "_" \o (IF i < Len(want) THEN ToString(want[i + 1]) ELSE "end")
+       IF want[i] = 92 /\ i < Len(want) /\ i <= Len(got) /\ got[i] = want[i + 1] THEN "backslash-before-" \o ToString(want[i + 1])
+       ELSE IF i < Len(got) /\ got[i] = 92 /\ got[i + 1] = want[i] THEN "backslash-before-" \o ToString(want[i])
+       ELSE "other-at-" \o ToString(want[i])
+\* detail of a "dest-broken" verdict
+BrokenDetail(r, v) ==
+  IF InAngles(r.src, r.spans[v.k]) THEN "angle-bracket-or-line-end"
+  ELSE IF v.x = <<>> \/ v.x[1] = 60 THEN "start"
+  ELSE IF \E i \in 1..Len(v.x) : v.x[i] <= 32 \/ v.x[i] = 127 THEN "blank-or-control"
+  ELSE "parenthesis-or-last-backslash"
 
 \* signature: cause + kind of the blamed block + nearest preceding block kind that leaves an HTML-like
 \* construct open ("-" when none; for "suffix-changed" the detail above): specific to the root cause, not
@@ -38,6 +48,7 @@ Sig(r) ==
        [fam |-> "linkdest", cause |-> v.cause,
         kind |-> IF v.b = 0 THEN "-" ELSE r.kinds[v.b],
         after |-> IF v.cause = "suffix-changed" THEN SuffixDetail(r, v)
+                  ELSE IF v.cause = "dest-broken" THEN BrokenDetail(r, v)
                   ELSE IF v.b = 0 THEN OpenBefore(r.kinds, Len(r.kinds)) ELSE OpenBefore(r.kinds, v.b - 1)]
 
 (* ---- record-walk skeleton (spec/lib2/Trace_HTMLEscape.tla) with ONE change: bad.ndjson lists one record per
